@@ -179,6 +179,9 @@ pub struct Sim {
 	pub min_reorg_floor: u32,
 	/// description of the last failed restart (deserialization error), if any
 	pub last_restart_error: Option<String>,
+	/// per node: (payment hash, preimage known) of every outbound HTLC the monitors it was last restarted from
+	/// still tracked in a current counterparty commitment (read through the `_verif_hooks` accessor)
+	pub monitor_htlcs_at_restart: BTreeMap<usize, Vec<([u8; 32], bool)>>,
 }
 
 fn pair(a: usize, b: usize) -> (usize, usize) {
@@ -203,7 +206,7 @@ impl Sim {
 			}
 		}
 		let genesis = w.nodes[0].blocks.lock().unwrap()[0].0.clone();
-		Sim { w, links, connected, chans: vec![], pays: vec![], log: vec![], broadcasts: vec![vec![]; n], next_payment_id: 1, emulate_disconnects: true, chain: ChainSim::new(genesis), snapshots: vec![vec![]; n], min_reorg_floor: 0, last_restart_error: None }
+		Sim { w, links, connected, chans: vec![], pays: vec![], log: vec![], broadcasts: vec![vec![]; n], next_payment_id: 1, emulate_disconnects: true, chain: ChainSim::new(genesis), snapshots: vec![vec![]; n], min_reorg_floor: 0, last_restart_error: None, monitor_htlcs_at_restart: BTreeMap::new() }
 	}
 
 	pub fn rec(&mut self, e: SEvent) {
@@ -364,6 +367,16 @@ impl Sim {
 			}
 		}
 		let r = self.w.restart(node, &mgr_bytes, &images, &peers);
+		if r.is_ok() {
+			let cm = &self.w.nodes[node].chain_monitor.chain_monitor;
+			let mut v = vec![];
+			for cid in cm.list_monitors() {
+				if let Ok(m) = cm.get_monitor(cid) {
+					v.extend(m.verif_current_outbound_htlcs().into_iter().map(|(h, p)| (h.0, p)));
+				}
+			}
+			self.monitor_htlcs_at_restart.insert(node, v);
+		}
 		self.rec(SEvent::Restart { node, snapshot_step: snap_step, monitor_ids: ids, ok: r.is_ok(), detail: r.clone().err().unwrap_or_default() });
 		if let Err(e) = &r {
 			self.last_restart_error = Some(e.clone());
